@@ -46,10 +46,12 @@ type Case struct {
 	// ReaderExitFirst forces (verif hook) the caller of each callback wait to reach its select only
 	// after the reader goroutine has exited, if it exits at all within the timeout in force.
 	ReaderExitFirst bool `json:"reader_exit_first,omitempty"`
+	// Names: how the callbacks are named (the name is documented as cosmetic): distinct, shared, none
+	Names string `json:"names,omitempty"`
 }
 
 var (
-	pool    = []string{"alpha", "beta", "gamma", "delta", "omega"}
+	pool    = []string{"alpha", "beta", "gamma", "delta", "omega", "échec", "ошибка"}
 	fillers = []string{"lorem", "ipsum", "17 packets", "ok", "----", "%", ">"}
 )
 
@@ -58,7 +60,9 @@ func mixCase(t *rapid.T, w string) string {
 	case 0:
 		return strings.ToUpper(w)
 	case 1:
-		return strings.ToUpper(w[:1]) + w[1:]
+		r := []rune(w)
+
+		return strings.ToUpper(string(r[:1])) + string(r[1:])
 	default:
 		return w
 	}
@@ -70,9 +74,13 @@ func genStep(t *rapid.T) string {
 	var sb strings.Builder
 
 	for i := 0; i < n; i++ {
-		if rapid.IntRange(0, 2).Draw(t, "fragKind") == 0 {
+		switch k := rapid.IntRange(0, 11).Draw(t, "fragKind"); {
+		case k == 0:
+			// kilobytes of neutral text: "the output accumulated since the last reset" is all of it
+			sb.WriteString(strings.Repeat("lorem ipsum 17 packets ", rapid.IntRange(50, 110).Draw(t, "bigN")))
+		case k <= 4:
 			sb.WriteString(rapid.SampledFrom(fillers).Draw(t, "filler"))
-		} else {
+		default:
 			sb.WriteString(mixCase(t, rapid.SampledFrom(pool).Draw(t, "word")))
 		}
 
@@ -96,14 +104,28 @@ func gen(t *rapid.T) Case {
 
 	for i := 0; i < rapid.IntRange(1, 5).Draw(t, "nSteps"); i++ {
 		c.Steps = append(c.Steps, genStep(t))
+
+		if len(c.Steps[i]) > 1000 {
+			// kilobytes must arrive within the (wall-clock) timeout: large reads, no gaps
+			c.Plan, c.GapUS = []int{rapid.IntRange(400, 4000).Draw(t, "bigPlan")}, 0
+		}
 	}
+
+	c.Names = rapid.SampledFrom([]string{"distinct", "distinct", "shared", "none"}).Draw(t, "names")
 
 	n := rapid.IntRange(1, 5).Draw(t, "nCB")
 	for i := 0; i < n; i++ {
 		cb := CB{}
 		w := rapid.SampledFrom(pool).Draw(t, "trigger")
 
-		if rapid.IntRange(0, 2).Draw(t, "isRe") == 0 {
+		kind := rapid.IntRange(0, 5).Draw(t, "isRe") // 0,1: pattern; 2: text and pattern; else text
+
+		if kind == 2 {
+			// both triggers ("contains its text ... or matches its pattern"), on different words
+			cb.Contains = mixCase(t, rapid.SampledFrom(pool).Draw(t, "trigger2"))
+		}
+
+		if kind <= 2 {
 			switch rapid.IntRange(0, 2).Draw(t, "reKind") {
 			case 0:
 				cb.Re = w[:2] + "+" + w[2:] // lower-case pattern
@@ -134,6 +156,12 @@ func gen(t *rapid.T) Case {
 			cb.Reply = fmt.Sprintf("r%d", i)
 		}
 
+		if c.Names != "distinct" && rapid.Bool().Draw(t, "onceBias") {
+			// several once-callbacks that do not end the operation, under one (or no) name: "once"
+			// belongs to the callback, not to its name
+			cb.Once, cb.Complete = true, false
+		}
+
 		c.Callbacks = append(c.Callbacks, cb)
 	}
 
@@ -159,8 +187,12 @@ func (cb *CB) holds(acc string) bool {
 		return false
 	}
 
-	if cb.Contains != "" {
-		return strings.Contains(a, norm(cb.Contains))
+	if cb.Contains != "" && strings.Contains(a, norm(cb.Contains)) {
+		return true
+	}
+
+	if cb.Re == "" {
+		return false
 	}
 
 	re := cb.Re
@@ -429,7 +461,9 @@ func run1(c Case, scale int) ev.Verdict {
 		var oo []util.Option
 		if spec.Contains != "" {
 			oo = append(oo, opoptions.WithCallbackContains(spec.Contains))
-		} else {
+		}
+
+		if spec.Re != "" {
 			oo = append(oo, opoptions.WithCallbackContainsRe(regexp.MustCompile(spec.Re)))
 		}
 
@@ -453,7 +487,13 @@ func run1(c Case, scale int) ev.Verdict {
 			oo = append(oo, opoptions.WithCallbackNextTimeout(time.Duration(spec.NextTimeoutMS)*time.Millisecond))
 		}
 
-		oo = append(oo, opoptions.WithCallbackName(fmt.Sprintf("cb%d", i)))
+		switch c.Names {
+		case "shared":
+			oo = append(oo, opoptions.WithCallbackName("cb"))
+		case "none":
+		default:
+			oo = append(oo, opoptions.WithCallbackName(fmt.Sprintf("cb%d", i)))
+		}
 
 		cb, cerr := generic.NewCallback(func(drv *generic.Driver, out string) error {
 			mu.Lock()
